@@ -38,7 +38,7 @@ RULE = (
     "phase dynamo: generated program (depth 1-12 over linear pos/kw/no-bias/nn.Linear/U.linear/uu.Linear, attention "
     "plain/causal/mask kw|positional/dropout_p=0/scale= keyword (alone and after positional extras)/U form, elementwise, norms, adds, reshapes; rank 2-4 inputs) x format pair "
     "(E8M23 lossless, E4M3, E5M2, E3M2, E2M1, E5M10, E8M7 x nearest | stochastic srbits default/1/4) x history "
-    "(simulate_format|simulate_fp8, 2-3 calls, resets, failing calls, neighbour module); phase direct: the backend from "
+    "(simulate_format|simulate_fp8, 2-3 calls incl. calls under no_grad and calls with frozen parameter subsets / inputs without gradient, resets, failing calls, neighbour module); phase direct: the backend from "
     "module.backends applied to an FX graph traced without Dynamo; phase isolation: quantise_fwd/bwd alone. "
     "non-trivial = program with >= 1 linear/attention op and >= 1 call; distinct = (op-kind sequence of the program, formats, history kinds)"
 )
